@@ -181,3 +181,56 @@ class Run:
         if self.errors:
             return 2
         return 0
+
+
+# ------------------------------------------------------------------ process-level parallelism for independent sub-checks
+
+def _pjob(args):
+    modname, fname, pid, tier, only, job = args
+    import importlib
+    import traceback as _tb
+    mod = importlib.import_module(modname)
+    sub = Run(pid, tier)
+    sub.only = only
+    try:
+        getattr(mod, fname)(sub, *job)
+    except HarnessError as e:
+        sub.error(str(job), e)
+    except Exception:
+        sub.error(str(job), _tb.format_exc())
+    return dict(obs=sub.obs, violations=sub.violations, inconclusive=sub.inconclusive, errors=sub.errors, queries=sub.queries,
+                solver_s=sub.solver_s, replays=sub.replays, known_hit=sub.known_hit, extra=sub.extra)
+
+
+def run_parallel(run, modname, fname, jobs, workers=16, timeout_s=3000):
+    """Run `modname.fname(sub_run, *job)` for every job in its own process; merge the records into `run`."""
+    import multiprocessing as mp
+    if not jobs:
+        return
+    ctxm = mp.get_context("fork")
+    pool = ctxm.Pool(min(workers, len(jobs)))
+    try:
+        asyncs = [(j, pool.apply_async(_pjob, ((modname, fname, run.pid, run.tier, getattr(run, "only", None), j),))) for j in jobs]
+        t_end = time.time() + timeout_s
+        for j, a in asyncs:
+            try:
+                res = a.get(timeout=max(1, t_end - time.time()))
+            except mp.TimeoutError:
+                run.ob("%s.budget" % (j,), "inconclusive", "", "sub-check exceeded its wall-clock budget (worker killed)")
+                continue
+            run.obs += res["obs"]
+            run.violations += res["violations"]
+            run.inconclusive += res["inconclusive"]
+            run.errors += res["errors"]
+            run.queries += res["queries"]
+            run.solver_s += res["solver_s"]
+            run.replays += res["replays"]
+            run.known_hit += res["known_hit"]
+            for k, v in res["extra"].items():
+                if isinstance(v, dict):
+                    run.extra.setdefault(k, {}).update(v)
+                else:
+                    run.extra[k] = v
+    finally:
+        pool.terminate()
+        pool.join()
